@@ -1596,6 +1596,28 @@ def errno_case(sess, v, name=None, code=None):
     return c if cls.startswith('status') else cls
 
 
+def access_case(sess, v, op):
+    """WRITE on a handle opened for reading / READ on one opened for writing
+    only; returns the status code sent (None: no reply)"""
+    if op == 'write_rdonly':
+        r = sess.exchange(3, open_body(v, b'f'))
+    else:
+        r = sess.exchange(3, sstr(b'acc_w') + u32(0x2 | 0x8) + empty_attrs(v))
+    if not r or r[0] != HANDLE:
+        return 'open failed: %r' % (r,)
+    h = Cur(r[1]).str()
+    if op == 'write_rdonly':
+        r = sess.exchange(6, sstr(h) + u64(0) + sstr(b'data'))
+    else:
+        r = sess.exchange(5, sstr(h) + u64(0) + u32(16))
+    out = None
+    if r is not None:
+        cls, c = classify(r[0], r[1])
+        out = c if cls.startswith('status') else cls
+        sess.exchange(4, sstr(h))
+    return out
+
+
 # ======================================================================
 # 3. attribute codec
 # ======================================================================
